@@ -157,6 +157,9 @@ func build(t tcase) (*lg.World, *lg.TxSpec) {
 }
 
 func run(c *core.Ctx) {
+	// generic checks (lg.Independence): re-validation of the same objects and
+	// presentation variants (map key order) of rejected transactions
+	lg.EnableChecks(c)
 	// pre-flight: the withdrawing transaction is valid in every other respect.
 	// All accounts are delegated here, so that its acceptance does not depend
 	// on where the gate sits (the property under test).
@@ -246,14 +249,24 @@ func run(c *core.Ctx) {
 		if t.invalid && t.era == lg.Dijkstra {
 			ruleTx = phase2Invalid{tx}
 		}
+		// every observation is repeated on the same objects (lg.Checked; lg.Verify
+		// does it itself); a full-list rejection is re-run in other presentations
+		ruleAlone := func(pp common.ProtocolParameters) error {
+			return lg.Checked(t.era, ruleTx, ls, func() error { return ruleFn(ruleTx, w.Slot, ls, pp) })
+		}
+		list := func(e lg.Era) error {
+			err := lg.Verify(e, tx, w.Slot, ls, w.PP())
+			lg.CheckPresentations(spec, built, err, func(v common.Transaction) error { return lg.Verify(e, v, w.Slot, ls, w.PP()) })
+			return err
+		}
 		if t.era == lg.Conway {
-			observed = append(observed, obs{"rule/conway-pp", ruleFn(ruleTx, w.Slot, ls, w.PP())})
-			observed = append(observed, obs{"rule/cross-pp", ruleFn(ruleTx, w.Slot, ls, w.Params.For(lg.Dijkstra))})
-			observed = append(observed, obs{"conway-list", lg.Verify(lg.Conway, tx, w.Slot, ls, w.PP())})
+			observed = append(observed, obs{"rule/conway-pp", ruleAlone(w.PP())})
+			observed = append(observed, obs{"rule/cross-pp", ruleAlone(w.Params.For(lg.Dijkstra))})
+			observed = append(observed, obs{"conway-list", list(lg.Conway)})
 		} else {
-			observed = append(observed, obs{"rule/dijkstra-pp", ruleFn(ruleTx, w.Slot, ls, w.PP())})
+			observed = append(observed, obs{"rule/dijkstra-pp", ruleAlone(w.PP())})
 			if !t.invalid {
-				observed = append(observed, obs{"dijkstra-list", lg.Verify(lg.Dijkstra, tx, w.Slot, ls, w.PP())})
+				observed = append(observed, obs{"dijkstra-list", list(lg.Dijkstra)})
 			}
 		}
 		clean := true
